@@ -424,8 +424,66 @@ def uid_or_copy():
 _base_scn_uc = scenarios
 
 
+def sig_or_copy():
+    """PGPSignature.__or__ (a signature packet goes into an empty shell only) and PGPSignature.__copy__ (a new signature object holding a
+    copy of the packet and a copy of the armor headers; what the packet copy carries: C08/SignatureV4.__copy__)"""
+    label = 'C14/PGPSignature.__or__+__copy__'
+    SIGP = 'pgpy.packet.packets.SignatureV4'
+
+    def gen(repo):
+        obls, funcs, paths = [], [], 0
+        for what in ('packet', 'second packet', 'user id packet'):
+            r = scn.Run(repo, SIG, '__or__', label + '[__or__ %s]' % what)
+            ex, st = r.ex, r.st
+            me = E.VObj(SIG, 'sig')
+            r.set('sig', '_signature', E.VObj(SIGP, 'first') if what == 'second packet' else E.VNone())
+            other = E.VObj('pgpy.packet.packets.UserID', 'uidpkt') if what == 'user id packet' else E.VObj(SIGP, 'pkt')
+            for pi, (s, v) in enumerate(r.call(me, [other])):
+                paths += 1
+                cur = s.heap.get(('sig', '_signature'))
+                if what != 'packet':
+                    r.oblige(s, 'refused(TypeError),nothing-changes/p%d' % pi,
+                             z3.BoolVal(isinstance(v, E.Raise) and v.exc.split(':')[0] == 'TypeError'
+                                        and (cur.ref == 'first' if what == 'second packet' else isinstance(cur, E.VNone))))
+                    continue
+                if isinstance(v, E.Raise):
+                    r.oblige(s, 'safety(%s)/p%d' % (v.exc.split(':')[0], pi), z3.BoolVal(False), v.where)
+                    continue
+                r.oblige(s, 'becomes-the-packet-of-the-signature/p%d' % pi, z3.BoolVal(cur is other and v is me))
+            res = r.result()
+            obls += res['obligations']
+            funcs += res['funcs']
+        r = scn.Run(repo, SIG, '__copy__', label + '[__copy__]')
+        ex, st = r.ex, r.st
+        r.set('sig', '_signature', E.VObj(SIGP, 'pkt'))
+        hdrs = E.VDict([(E.VStr(s='Comment'), E.VStr(z=z3.Const('COMMENT', E.BYTES)))])
+        r.set('sig', 'ascii_headers', hdrs)
+
+        def fresh(ex, st, c, a):
+            st.heap[('copy', '_signature')] = E.VNone()
+            st.heap[('copy', 'ascii_headers')] = E.VDict([])
+            return [(st, E.VObj(SIG, 'copy'))]
+        r.hook(SIG, '__call__', fresh)
+        r.hook(SIGP, '__copy__', scn.method_hook(lambda ex, st, o, a: [(st, E.VObj(o.cls, 'copy-of-' + str(o.ref)))]))
+        for pi, (s, v) in enumerate(r.call(E.VObj(SIG, 'sig'), [])):
+            paths += 1
+            if isinstance(v, E.Raise):
+                r.oblige(s, 'safety(%s)/p%d' % (v.exc.split(':')[0], pi), z3.BoolVal(False), v.where)
+                continue
+            pk, hd = s.heap.get(('copy', '_signature')), s.heap.get(('copy', 'ascii_headers'))
+            r.oblige(s, 'a-new-signature-object-holding-a-copy-of-the-packet/p%d' % pi,
+                     z3.BoolVal(isinstance(v, E.VObj) and v.ref == 'copy' and isinstance(pk, E.VObj) and pk.ref == 'copy-of-pkt'))
+            same = isinstance(hd, E.VDict) and hd.cell != hdrs.cell and len(hd.of(s)) == 1 and hd.of(s)[0][0].s == 'Comment' and hd.of(s)[0][1] is hdrs.pairs[0][1]
+            r.oblige(s, 'armor-headers:an-own-dict-with-the-same-entries/p%d' % pi, z3.BoolVal(bool(same)))
+            r.oblige(s, 'original-untouched/p%d' % pi, z3.BoolVal(s.heap.get(('sig', '_signature')).ref == 'pkt' and s.heap.get(('sig', 'ascii_headers')) is hdrs
+                                                                    and len(hdrs.of(s)) == 1))
+        res = r.result()
+        return {'obligations': obls + res['obligations'], 'funcs': funcs + res['funcs'], 'paths': paths}
+    return Scenario(label, SIG + '.__copy__', gen, props=('C14', 'C02', 'C07', 'C08'))
+
+
 def scenarios():
-    return _base_scn_uc() + [uid_or_copy()]
+    return _base_scn_uc() + [uid_or_copy(), sig_or_copy()]
 
 
 def key_parse(shape_name, shape):
